@@ -38,7 +38,7 @@ ASSUME = ["shape coverage is the model's (C01) coverage; clip coverage the model
 
 
 def run(ctx):
-    return _scene.run_property(ctx, CFG, 1500, 20000, RULE, concrete, ASSUME, post=post)
+    return _scene.run_property(ctx, CFG, 3000, 20000, RULE, concrete, ASSUME, post=post)
 
 
 def replay(ctx, path):
